@@ -610,6 +610,32 @@ func (g *G) genMain(p *Program) {
 			g.globals = append(g.globals, v)
 		}
 	}
+	// a parameter named like an imported package shadows it; stores through it are field stores
+	shadowCall := ""
+	if len(g.libs) > 0 && g.r.Chance(1, 3) {
+		l := core.Pick(g.r, g.libs)
+		for _, v := range l.vars {
+			if v.T.K == KInt && !v.Const {
+				alias := g.libAlias(l.name)
+				tn, fn := g.name("Sh"), g.name("sh")
+				g.line("type %s struct {", tn)
+				g.line("\t%s int", v.Name)
+				g.line("\tOther int")
+				g.line("}")
+				g.line("")
+				g.line("func %s(%s *%s, n int) int {", fn, alias, tn)
+				g.line("\t%s.%s = n", alias, v.Name)
+				g.line("\t%s.%s += 2", alias, v.Name)
+				g.line("\t%s.%s++", alias, v.Name)
+				g.line("\t%s.Other = %s.%s * 3", alias, alias, v.Name)
+				g.line("\treturn %s.%s + %s.Other", alias, v.Name, alias)
+				g.line("}")
+				g.line("")
+				shadowCall = fmt.Sprintf("fmt.Println(%q, %s(&%s{}, %d), %s.%s)", fn, fn, tn, g.r.Intn(50), alias, v.Name)
+				break
+			}
+		}
+	}
 	if g.r.Chance(1, 3) {
 		g.line("func init() {")
 		g.line("\tfmt.Println(\"init main\")")
@@ -626,8 +652,14 @@ func (g *G) genMain(p *Program) {
 	for _, t := range []*Type{TInt, TInt, TString, TFloat, SliceOf(TInt), g.numType(), g.numType()} {
 		g.declareLocal(t)
 	}
+	if shadowCall != "" {
+		g.line("%s", shadowCall)
+	}
 	for i := 0; i < g.w.stmtsMain && g.budget > 0; i++ {
 		g.stmt()
+	}
+	if shadowCall != "" {
+		g.line("%s", shadowCall)
 	}
 	g.printVars(g.scope)
 	// final state of the globals
